@@ -1,6 +1,7 @@
 // @id C16.gammas
 // @engine B
 // @entry vfh_C16_gammas
+// @shared_state_watch
 // @tier Q
 // @reach gammas.returned
 // @funcs Phreeqc::gammas
